@@ -941,9 +941,14 @@ def _short_path(path: list[object]) -> str:
 # ------------------------------------------------------------------------ whole case
 
 
-def run_case(chk: Checker, case: dict[str, Any]) -> list[tuple[str, str, dict[str, Any]]] | None:
+def run_case(chk: Checker, case: dict[str, Any], only: str | None = None) -> list[tuple[str, str, dict[str, Any]]] | None:
     """Execute the oracle on one case.  None = the case is not a valid program of the
-    workload (does not parse / references a template outside the set)."""
+    workload (does not parse / references a template outside the set).  *only* (a
+    violation key) restricts the run to the parts that can produce that key (used while
+    minimising a witness)."""
+    want_spans = only is None or only.startswith("span:")
+    want_async = only is None or only.startswith(("analyze-async:", "helper:"))
+    want_runtime = only is None or only.startswith(("vars:", "globals:", "filters:", "tags:"))
     global ACTIVE  # noqa: PLW0603
     from liquid2.exceptions import LiquidError
     from liquid2.exceptions import TemplateNotFoundError
@@ -973,17 +978,21 @@ def run_case(chk: Checker, case: dict[str, Any]) -> list[tuple[str, str, dict[st
     if ctx is not None:
         ctx.ev()
     st = Static(a)
-    chk.check_spans(cs, st, out)
-    if case.get("posmap"):
+    if want_spans:
+        chk.check_spans(cs, st, out)
+    if want_spans and case.get("posmap"):
         flagged = {(d.get("template_name"), d.get("start"), d.get("end")) for _k, _w, d in out}
         more: list[tuple[str, str, dict[str, Any]]] = []
         chk.check_posmap(cs, st, case["posmap"], more)
         out += [m for m in more if (m[2].get("template_name"), m[2].get("start"), m[2].get("end")) not in flagged]
-    chk.check_async_and_helpers(cs, a, out)
+    if want_async:
+        chk.check_async_and_helpers(cs, a, out)
     binders = set(case.get("binders") or ())
     rec = chk.rec
-    for i, data in enumerate(case.get("datasets") or []):
+    for i, data in enumerate((case.get("datasets") or []) if want_runtime else []):
         mode = "async" if i % 3 == 2 else "sync"
+        if case.get("modes"):
+            mode = case["modes"][i % len(case["modes"])]
         rec.reset()
         cs.t.overlay_data = RecordingMapping(data, rec)
         ACTIVE = rec
